@@ -605,7 +605,8 @@ def oracle_C04_text(case, o):
     full = {0: '<x>%s</x>', 1: '<x title="v">%s<em></em></x>', 2: '<ul><li>%s</li><li>%s</li></ul>', 3: '<p><b>%s</b><i></i></p>', 4: '<x class="c">%s<i></i></x><b></b>'}.get(case['tpl'])
     if full and case['c'].get('options', {}).get('output.format') is False and 'syntax' not in case['c'] and '\n' not in want and '\r' not in want and 'want' not in case:
         exp = full.replace('%s', want)
-        if mk.strip_fields(o[1]) != exp and o[1] != exp:
+        bare = lambda t: re.sub(r'\$\{\d+\}', '', t)          # tabstops of the empty elements (the same shape inside the text, on both sides)
+        if bare(o[1]) != bare(exp):
             return ['text-whole| expand(%r) = %r, expected %r' % (case['s'], o[1], exp)]
     tag = ['x', 'x', 'li', 'b', 'x', 'x', 'br', 'x'][case['tpl']]
     got = first_text_after(o[1], tag)
